@@ -287,6 +287,21 @@ def r5_parse_only_annotations(run, F):
                     ok = True
         run.ob("R5-FLAGS-PRINTED", "%s|pub" % variant, ok, F.where(decl, arm[0] if arm else None),
                "Declaration::%s must print `pub` when the Public flag is set (a public %s loses the flag in a round trip)" % (variant, variant))
+        # every flag keyword is printed by its own, independent test (an `else if` drops the second keyword of `pub extern ..`)
+        if arm:
+            def tests_flag(n):
+                return n.get("k") == "If" and any("DeclarationFlag::" in hirq.short(p) for p, _ in hirq.constructs(n["cond"]))
+            flag_ifs = [n for n in walk(arm[0]["body"]) if tests_flag(n)]
+            nested = []
+            for outer in flag_ifs:
+                for part in ("then", "else"):
+                    if isinstance(outer.get(part), dict):
+                        for inner in walk(outer[part]):
+                            if inner is not outer and tests_flag(inner):
+                                nested.append(sorted(set(hirq.short(p).split("::")[-1] for p, _ in hirq.constructs(inner["cond"]) if "DeclarationFlag::" in hirq.short(p))))
+            flags_tested = sorted(set(hirq.short(p).split("::")[-1] for n in flag_ifs for p, _ in hirq.constructs(n["cond"]) if "DeclarationFlag::" in hirq.short(p)))
+            run.ob("R5-FLAGS-PRINTED", "%s|independent tests" % variant, not nested and "External" in flags_tested, F.where(decl, arm[0]),
+                   "Declaration::%s prints its flag keywords through independent tests (flags tested %s; tests nested in another flag's branch: %s)" % (variant, flags_tested, nested))
     # the file name of an import is a string literal: it must be printed escaped
     iarm = hirq.arm_for(m, "Declaration::Import")
     esc = False
